@@ -113,6 +113,49 @@ def _definition_reads():
     return reads
 
 
+def _model_reaching_assignments():
+    """assignments in the two simulators and the INP writer whose target is reached from the model object: the chain is rooted at `wn`,
+    `self._wn`, `self.wn`, passes through `.options`, or is rooted at a local alias of such an expression (one level)"""
+    import wntr.sim.core as core
+    import wntr.sim.hydraulics as hyd
+    import wntr.sim.epanet as sepa
+    import wntr.epanet.io as eio
+
+    def chain(e):
+        out = []
+        while isinstance(e, (ast.Attribute, ast.Subscript)):
+            if isinstance(e, ast.Attribute):
+                out.append(e.attr)
+            e = e.value
+        out.append(e.id if isinstance(e, ast.Name) else "<%s>" % type(e).__name__)
+        return list(reversed(out))
+
+    def reaches(c, aliases):
+        return "options" in c or c[0] in ("wn",) or c[:2] in (["self", "_wn"], ["self", "wn"]) or c[0] in aliases
+    found = []
+    for mod, pred in ((core, lambda n: True), (hyd, lambda n: True), (sepa, lambda n: True),
+                      (eio, lambda n: n == "write" or n.startswith("_write"))):
+        tree = ast.parse(inspect.getsource(mod))
+        for f in ast.walk(tree):
+            if not (isinstance(f, ast.FunctionDef) and pred(f.name)):
+                continue
+            aliases = set()
+            for n in ast.walk(f):       # locals bound to (a part of) the model
+                if isinstance(n, ast.Assign) and len(n.targets) == 1 and isinstance(n.targets[0], ast.Name) and isinstance(n.value, ast.Attribute):
+                    c = chain(n.value)
+                    if ("options" in c or c[:2] in (["self", "_wn"], ["self", "wn"])) and c[-1] in ("options", "time", "hydraulic", "quality", "reaction", "energy", "_wn", "wn"):
+                        aliases.add(n.targets[0].id)
+            for n in ast.walk(f):
+                tg = n.targets if isinstance(n, ast.Assign) else [n.target] if isinstance(n, (ast.AugAssign, ast.AnnAssign)) else []
+                for t in tg:
+                    for e in (t.elts if isinstance(t, (ast.Tuple, ast.List)) else [t]):
+                        if isinstance(e, (ast.Attribute, ast.Subscript)):
+                            c = chain(e)
+                            if len(c) > 1 and reaches(c, aliases) and not (f.name == "__init__" and len(c) == 2 and c[0] == "self"):
+                                found.append((".".join(c), "%s:%s:%d" % (mod.__name__, f.name, n.lineno)))
+    return found
+
+
 # simulation-state attributes that to_dict reads only to *skip* them or through read-only views (documented exclusions of to_dict)
 def _frame_lemma():
     writes = _sim_writes()
@@ -121,6 +164,10 @@ def _frame_lemma():
     for cls, attrs in sorted(reads.items()):
         clash = sorted(a for a in attrs if a in writes)
         items.append(("simulation_code_assigns_no_definition_attribute_of_%s" % cls, [], z3.BoolVal(not clash) if not clash else z3.And(z3.BoolVal(False), z3.Bool("assigned:" + ",".join("%s@%s" % (a, writes[a][0]) for a in clash)))))
+    # options, registries and the model object itself: the simulators and the INP writer assign nothing reached from the model except the clock
+    bad = sorted("%s@%s" % (c, w) for c, w in _model_reaching_assignments() if c.split(".")[-1] not in ("sim_time", "_prev_sim_time"))
+    items.append(("simulators_and_inp_writer_assign_nothing_reached_from_the_model_but_its_clock", [],
+                  z3.BoolVal(True) if not bad else z3.And(z3.BoolVal(False), z3.Bool("assigned:" + ",".join(bad[:6])))))
     # the dynamic write of ControlAction: the attribute names it can hold (ControlAction.__init__ contract)
     for a in ("_user_status", "_setting", "_leak_status", "_internal_status"):
         bad = [c for c, attrs in reads.items() if a in attrs]
@@ -219,6 +266,25 @@ def _bounded(shard, nshards):
         logging.disable(logging.CRITICAL)
         evals, distinct, failures, samples, known = 0, set(), [], [], []
         work = M.simulation_networks(tier)
+        # option corners in which a simulator adjusts a setting "for this simulation" (the adjustment must stay inside the simulator)
+        def report_below_hydraulic(w):
+            w.options.time.hydraulic_timestep = 3600
+            w.options.time.report_timestep = 900
+        def pdd_low_required_pressure(w):
+            w.options.hydraulic.demand_model = "PDD"
+            w.options.hydraulic.required_pressure = 0.06      # above the WNTR smoothing delta (0.05 m), below the limit of EPANET (0.1 psi or m)
+            w.options.hydraulic.minimum_pressure = 0.0
+        def report_not_a_multiple(w):
+            w.options.time.hydraulic_timestep = 3600
+            w.options.time.report_timestep = 5000
+        extra = []
+        for name, wn in work[:3]:
+            for vn, fn in (("report_below_hydraulic", report_below_hydraulic), ("pdd_low_required_pressure", pdd_low_required_pressure),
+                           ("report_not_a_multiple", report_not_a_multiple)):
+                w2 = copy.deepcopy(wn)
+                fn(w2)
+                extra.append(("%s+%s" % (name, vn), w2))
+        work = list(work) + extra
         idx = 0
         for name, wn in work:
             for simname in ("WNTRSimulator", "EpanetSimulator"):
@@ -242,6 +308,8 @@ def _bounded(shard, nshards):
                         known.append("%s [%s %s]" % (kf["what_fails"][:150], name, simname))
                     elif simname == "EpanetSimulator" and type(e).__name__ == "EpanetException":
                         continue      # EPANET itself refuses the model (e.g. error 223 for a two-node test network): not a C11 matter
+                    elif isinstance(e, NotImplementedError):
+                        continue      # the simulator declares the model outside what it supports (e.g. pump speed settings): not a C11 matter
                     else:
                         failures.append(dict(model=name, simulator=simname, raised=repr(e)[:200]))
                     continue
@@ -278,7 +346,8 @@ def _bounded(shard, nshards):
                 if len(samples) < 3:
                     samples.append(dict(model=name, simulator=simname, steps=len(r1.node["head"].index)))
         return dict(evaluations=evals, distinct_nontrivial=len(distinct), failures=failures[:10], samples=samples, exhaustive=False, known=sorted(set(known)),
-                    scope="shard %d/%d: feature models and example networks x {WNTRSimulator, EpanetSimulator}: to_dict identical before/after the run; "
+                    scope="shard %d/%d: example networks (+ three option corners on the first three: report step below / not a multiple of the hydraulic step, PDD with "
+                          "a required pressure below EPANET's limit) x {WNTRSimulator, EpanetSimulator}: to_dict identical before/after the run; "
                           "WNTRSimulator: reset_initial_values + rerun and a deepcopy reproduce heads, demands, flows, statuses (1e-6)" % (shard, nshards))
     return run
 
